@@ -371,6 +371,10 @@ def probe(sim, mon, snaps):
                 mon.tag('C07/observation-finished-without-depositing-rate-times-duration')
         if tel.telescope_use > tel.total_arrays:
             mon.tag('C08/arrays-in-use-exceed-total')
+        # independent of the telescope's own counter: observations that have begun and not finished hold their arrays
+        begun = {b['obs'].name for b in mon.begin}
+        if sum(o.demand for o in tel.observations if o.name in begun and o.status != RunStatus.FINISHED) > tel.total_arrays:
+            mon.tag('C08/observations-on-the-telescope-hold-more-arrays-than-exist')
         if len(r['ingest']) > tel.max_ingest:
             mon.tag('C08/ingest-machines-exceed-limit')
         truly_idle = len(cl._tasks['running']) == 0 and len(r['occupied']) == 0 and len(r['ingest']) == 0
@@ -648,6 +652,8 @@ def final_oracles(sc, res):
     for e in expected_ingest:
         if mon.activations.get(e) != 1:
             mon.tag('C04/ingest-task-not-executed-once')
+    if sorted(t for t in mon.activations if '_ingest_t' in t) != sorted(expected_ingest):
+        mon.tag('C04/ingest-tasks-differ-from-the-pipeline-demand')
     gl = sc['graphs'] if len(sc['graphs']) > 1 else sc['graphs'] * len(sc['obs'])
     for k, o in enumerate(tel.observations):
         mine = [tid for tid in mon.activations if tid.startswith(o.name + '_') and '_ingest_t' not in tid]
